@@ -266,6 +266,7 @@ type FnCtx struct {
 	inputs   []modelVar
 	lockEntry *State
 	replayInputs []replayInput
+	gotoLoops map[*ast.LabeledStmt]*ast.ForStmt
 }
 
 func (f *FnCtx) info() *types.Info { return f.pkg.TypesInfo }
